@@ -1,6 +1,7 @@
 package main
 
 import (
+	"os"
 	"net/url"
 	"path"
 	"strconv"
@@ -15,6 +16,9 @@ import (
 func installModels(e *Engine) {
 	// jsonpointer.Escape: per byte map '~'->"~0", '/'->"~1"
 	e.intercept["github.com/go-openapi/jsonpointer.Escape"] = func(e *Engine, fr *Frame, c *Ctx, a []Value, _ *ssa.CallCommon) (Value, bool) {
+		if a[0].(StrV).Plain {
+			return a[0], true
+		}
 		s := fl(a[0].(StrV))
 		if cs, ok := s.Concrete(); ok {
 			out := ""
@@ -322,6 +326,11 @@ func installModels(e *Engine) {
 			}
 			return fn
 		}
+		if sv, isSlice := recv.(SliceV); isSlice {
+			if st, isS := t.Underlying().(*types.Slice); isS && e.sortGuarded(fr, c, sv, st.Elem(), meth("Less")) {
+				return nil, true
+			}
+		}
 		lenV, nc := e.call(fr, c, meth("Len"), []Value{recv}, nil)
 		if nc == nil {
 			return nil, false
@@ -385,13 +394,40 @@ func installModels(e *Engine) {
 		arr := e.arr(c, sl.Obj)
 		n := int(sl.Len.val)
 		var res StrV
+		started := false
+		allConcrete := true
+		var parts []string
+		for i := 0; i < n; i++ {
+			cs, ok := arr.E[sl.Off+i].(StrV).Concrete()
+			allConcrete = allConcrete && ok
+			parts = append(parts, cs)
+		}
+		if allConcrete {
+			return StrC(path.Join(parts...)), true
+		}
 		for i := 0; i < n; i++ {
 			el := arr.E[sl.Off+i].(StrV)
-			if i == 0 {
-				res = el
-			} else {
-				res = strConcat(strConcat(res, StrC("/")), el)
+			if cs, ok := el.Concrete(); ok {
+				if cs == "" {
+					continue // empty elements are ignored
+				}
+				if started && (strings.HasPrefix(cs, "/") || strings.HasSuffix(cs, "/")) || strings.Contains(cs, "//") || strings.Contains(cs, ".") {
+					unsup("path.Join model: constant element %q needs cleaning", cs)
+				}
 			}
+			switch {
+			case !started:
+				res, started = el, true
+			default:
+				if rs, ok := res.Concrete(); ok && strings.HasSuffix(rs, "/") {
+					res = strConcat(res, el) // "/" + x
+				} else {
+					res = strConcat(strConcat(res, StrC("/")), el)
+				}
+			}
+		}
+		if !started {
+			return StrC(""), true
 		}
 		return res, true
 	}
@@ -423,10 +459,65 @@ func installModels(e *Engine) {
 		if cs, ok := s.Concrete(); ok {
 			return StrC(strings.ReplaceAll(strings.ReplaceAll(cs, "~1", "/"), "~0", "~")), true
 		}
+		if s.Plain {
+			return s, true
+		}
+		if s.R != nil && len(s.R.Toks) == 1 && len(s.R.Toks[0]) > 1 {
+			// a token made of several pieces, each an Escape result, a '~'-free name or a '~'-free constant: no escape
+			// sequence straddles a boundary (an Escape result never ends in a bare '~'), so Unescape works piece by piece
+			// (lemma checked by selftest)
+			var res StrV
+			ok := true
+			for i, p := range s.R.Toks[0] {
+				var m StrV
+				switch {
+				case p.EscOf != nil:
+					m = *p.EscOf
+				case p.Plain:
+					m = p
+				default:
+					cs, isC := p.Concrete()
+					if !isC || strings.Contains(cs, "~") {
+						ok = false
+					}
+					m = StrC(cs)
+				}
+				if !ok {
+					break
+				}
+				if i == 0 {
+					res = m
+				} else {
+					res = strConcat(res, m)
+				}
+			}
+			if ok {
+				return res, true
+			}
+		}
+		if os.Getenv("SYMGO_DEBUG_UNESC") != "" {
+			f := fl(s)
+			fmt.Printf("    [slow-unescape] in %s: rope=%v toks=%d pieces0=%d len<=%d lenconst=%v\n", fr.Fn.String(), s.R != nil, ntoks(s), func() int { if s.R != nil { return len(s.R.Toks[0]) }; return -1 }(), len(f.B), f.Len.IsConst())
+		}
 		return slowUnescape(e, fr, c, a, cc)
 	}
 	redirect("github.com/go-openapi/swag.ToGoName", "vrfModelIdent")
 	redirect("github.com/go-openapi/swag.ToJSONName", "vrfModelJSONName")
+	{
+		// the mangled name holds letters and digits only: a single '/'-free piece
+		inner := e.intercept["github.com/go-openapi/swag.ToJSONName"]
+		e.intercept["github.com/go-openapi/swag.ToJSONName"] = func(e *Engine, fr *Frame, c *Ctx, a []Value, cc *ssa.CallCommon) (Value, bool) {
+			v, ok := inner(e, fr, c, a, cc)
+			if !ok || v == nil {
+				return v, ok
+			}
+			f := fl(v.(StrV))
+			if cs, isC := f.Concrete(); isC {
+				return StrC(cs), true
+			}
+			return StrV{Len: f.Len, B: f.B, Plain: true, R: &Rope{Toks: [][]StrV{{StrV{Len: f.Len, B: f.B, Plain: true}}}}}, true
+		}
+	}
 	// swag.FromDynamicJSON(src, dst) between two values of the same type: a JSON round trip = deep copy (modulo the
 	// serialization normal form)
 	e.intercept["github.com/go-openapi/swag.FromDynamicJSON"] = func(e *Engine, fr *Frame, c *Ctx, a []Value, _ *ssa.CallCommon) (Value, bool) {
@@ -466,12 +557,10 @@ func installModels(e *Engine) {
 			unsup("Itoa on symbolic int without a small non-negative interval")
 		}
 		// case split over the interval; decimal digits never contain '/', so the result is a one-piece rope
-		var res Value = flatC(fmt.Sprint(t.hi))
+		f := flatC(fmt.Sprint(t.hi))
 		for v := int64(t.hi) - 1; v >= int64(t.lo); v-- {
-			res = mergeV(Eq(t, BV(64, uint64(v))), flatC(fmt.Sprint(v)), res)
+			f = flatMerge(Eq(t, BV(64, uint64(v))), flatC(fmt.Sprint(v)), f) // a flat piece (mergeV would build a lazy choice)
 		}
-		f := res.(StrV)
-		f.R = nil
 		return StrV{Len: f.Len, B: f.B, R: &Rope{Toks: [][]StrV{{f}}}}, true
 	}
 	_ = concreteOnly
@@ -545,8 +634,34 @@ func installModels(e *Engine) {
 	}
 	// (*net/url.URL).String (spike): "#"+Fragment, or "" when Fragment is empty; no escaping
 	e.intercept["(*net/url.URL).String"] = func(e *Engine, fr *Frame, c *Ctx, a []Value, cc *ssa.CallCommon) (Value, bool) {
+		if pv := a[0].(PtrV); len(pv.Alts) > 1 {
+			// render each candidate URL on its own (a whole-document reference and a fragment reference render differently)
+			var res Value
+			for k := len(pv.Alts) - 1; k >= 0; k-- {
+				alt := pv.Alts[k]
+				if alt.Obj < 0 {
+					continue
+				}
+				v, _ := e.intercept["(*net/url.URL).String"](e, fr, c, []Value{PtrV{[]PtrAlt{{G: TTrue, Obj: alt.Obj, Path: alt.Path}}}}, cc)
+				if res == nil {
+					res = v
+				} else {
+					res = mergeV(alt.G, v, res)
+				}
+			}
+			if res != nil {
+				return res, true
+			}
+		}
 		u := e.load(c, a[0].(PtrV), "URL.String").(StructV)
 		st := cc.Signature().Recv().Type().(*types.Pointer).Elem().Underlying().(*types.Struct)
+		for i := 0; i < st.NumFields(); i++ {
+			if st.Field(i).Name() == "Path" {
+				if ps, ok := u.F[i].(StrV).Concrete(); ok && ps != "" {
+					return StrC(ps), true // concrete relative document reference (safe characters only, see MustCreateRef)
+				}
+			}
+		}
 		for i := 0; i < st.NumFields(); i++ {
 			if st.Field(i).Name() == "Fragment" {
 				var render func(f StrV) StrV
@@ -616,6 +731,7 @@ func installModels(e *Engine) {
 					t := StrV{Len: ropeLen(nr), R: nr}
 					if len(tok) == 1 {
 						t.EscOf = tok[0].EscOf
+						t.Plain = tok[0].Plain
 					}
 					el = append(el, t)
 				}
@@ -642,8 +758,30 @@ func installModels(e *Engine) {
 	// spec.MustCreateRef for fragment-only refs "#"+f
 	e.intercept["github.com/go-openapi/spec.MustCreateRef"] = func(e *Engine, fr *Frame, c *Ctx, a []Value, cc *ssa.CallCommon) (Value, bool) {
 		s := fl(a[0].(StrV))
+		if cs, ok := s.Concrete(); ok && cs != "" && !strings.ContainsAny(cs, "#?:%\\ ") && !strings.HasPrefix(cs, "/") {
+			// a concrete relative reference to a whole document ("dir/file.json"): URL{Path: cs}, no fragment, no pointer
+			rt := cc.Signature().Results().At(0).Type()
+			v := zero(rt)
+			jr := rt.Underlying().(*types.Struct).Field(0).Type().Underlying().(*types.Struct)
+			ut := jr.Field(0).Type().(*types.Pointer).Elem()
+			us := ut.Underlying().(*types.Struct)
+			uv := zero(ut).(StructV)
+			for i := 0; i < us.NumFields(); i++ {
+				if us.Field(i).Name() == "Path" {
+					uv.F[i] = StrC(cs)
+				}
+			}
+			id := e.newObj(c, &Obj{Val: uv})
+			v = setPath(v, []int{0, 0}, PtrV{[]PtrAlt{{G: TTrue, Obj: id}}})
+			for i := 0; i < jr.NumFields(); i++ {
+				if jr.Field(i).Name() == "HasURLPathOnly" {
+					v = setPath(v, []int{0, i}, BoolV{TTrue})
+				}
+			}
+			return v, true
+		}
 		if len(s.B) == 0 || !s.B[0].IsConst() || s.B[0].val != '#' {
-			unsup("MustCreateRef model: only fragment refs")
+			unsup("MustCreateRef model: only fragment refs and concrete relative document refs")
 		}
 		f := StrV{Len: Sub(s.Len, BV(64, 1)), B: s.B[1:]}
 		if r0 := a[0].(StrV).R; r0 != nil && len(r0.Toks[0]) >= 1 {
